@@ -103,6 +103,12 @@ pub fn value_forms(specs: &[TySpec]) -> Vec<(String, String, bool)> {
         }
         if !matches!(t.ty, Type::Duration(_) | Type::Stretch(_) | Type::Bit(_) | Type::BitArray(..)) {
             v.push((format!("{}(v_i0)", t.spell), format!("cast:{}", t.spell), false));
+            // casts whose operand already has the cast's type: the cast must stay a cast
+            v.push((format!("{}({}(v_i0))", t.spell, t.spell), format!("castcast:{}", t.spell), false));
+            if let Some(l) = t.lit {
+                v.push((format!("{}(k_{})", t.spell, t.ident), format!("castconst:{}", t.spell), false));
+                v.push((format!("{}({})", t.spell, l), format!("castlit:{}", t.spell), false));
+            }
         }
         v.push((format!("r_{}()", t.ident), format!("call:{}", t.spell), false));
     }
@@ -425,7 +431,29 @@ impl Table {
             _ => (value.get_type().clone(), None),
         };
         // for explicit source casts the value form *is* a cast: its own type is the value type
-        let source_is_cast = vtag.starts_with("cast:");
+        let source_is_cast = vtag.starts_with("cast");
+        if source_is_cast {
+            // an explicit cast stays a Cast node of the written type (checked where the written
+            // type differs from the target, so that an inserted conversion cannot stand in for it)
+            let spelled = vtag.split(':').nth(1).unwrap_or("");
+            if let Some(w) = self.specs.iter().find(|s| s.spell == spelled) {
+                let written = unconst(&w.ty);
+                if written != unconst(&target_ty) {
+                    let mut n = 0;
+                    let mut e: &asg::TExpr = &value;
+                    while let asg::Expr::Cast(c) = e.expression() {
+                        if unconst(c.get_type()) == written {
+                            n += 1;
+                        }
+                        e = c.operand();
+                    }
+                    let want = if vtag.starts_with("castcast:") { 2 } else { 1 };
+                    if n < want {
+                        fail(ctx, "node_type", format!("{} [explicit cast]", class), format!("the value `{}` is written with {} cast(s) to {:?}, the graph has {}", vtext, want, written, n));
+                    }
+                }
+            }
+        }
         let src_ty = if source_is_cast { value.get_type().clone() } else { value_ty.clone() };
         let equal = unconst(value.get_type()) == unconst(&target_ty) && (via_cast_to.is_none() || source_is_cast || via_cast_to.as_ref() == Some(&target_ty));
         ctx.outcome(fnv_mix(fnv_str(&format!("{:?}", src_ty)), (equal as u64) << 1 | type_diag as u64));
